@@ -1,6 +1,7 @@
 package main
 
 import (
+	"encoding/json"
 	"errors"
 	"fmt"
 	"math/big"
@@ -796,6 +797,88 @@ func runC12(c *rt.Ctx) {
 	}
 	c.Require("deep-ignored-member", 25)
 	c.Require("ignored-number-beyond-float64", 10)
+
+	// bytes that editors, transports and other languages put around a JSON value and that are
+	// not JSON: byte order marks, non-ASCII and control "white space", comments, record separators,
+	// XSSI guards. In front of, behind, and (for the BOM) inside otherwise valid documents.
+	{
+		junk := []string{"\xef\xbb\xbf", "\xff\xfe", "\xfe\xff", "\xef\xbb", "\xef", "\u00a0", "\u2028", "\u2029", "\u0085", "\u3000", "\u200b", "\v", "\f", "\x00", "\x1a", "\x1e", "\x7f", "\b",
+			"//c\n", "/**/", "#c\n", ")]}'\n", ";", "\\n", "\\ufeff", "\xc2", "\x80", "\xe2\x80", "=", "(", "<!---->"}
+		bases := []string{`0`, `10`, `"10 kB"`, `"0"`, `{"value":1,"unit":"KiB"}`, `{"unit":"B","value":0}`, `{"value":1,"unit":"KiB","x":[1,{"a":"b"}]}`, ` 7 `, "\n{\n \"value\": 2,\n \"unit\": \"MB\"\n}\n", `18446744073709551615`, `""`, `{}`, `null`}
+		for _, cfg := range []c12Cfg{{rule: size.RuleEnableJSONStringForm | size.RuleEnableJSONObjectForm, maxKeys: 16}, {rule: size.RuleEnableJSONObjectForm | size.RuleDisallowUnknownKeys, maxKeys: 0}, {rule: size.RuleEnableJSONStringForm, maxKeys: 2}, {rule: 15, maxKeys: 3}} {
+			cfg := cfg
+			c12Apply(cfg)
+			c.Parallel("non-json-bytes-around-documents", 0, func(w *rt.W) {
+				for ji := w.Shard; ji < len(junk); ji += w.NShards {
+					j := junk[ji]
+					for _, b := range bases {
+						for _, doc := range []string{j + b, b + j, j + b + j, j + " " + b, b + " " + j, " " + j + b, b + j + " ", j + j + b, j} {
+							c12Case(w, doc, cfg)
+						}
+						if i := strings.IndexByte(b, ':'); i > 0 {
+							c12Case(w, b[:i]+j+b[i:], cfg)
+							c12Case(w, b[:i+1]+j+b[i+1:], cfg)
+							c12Case(w, b[:1]+j+b[1:], cfg)
+							c12Case(w, b[:len(b)-1]+j+b[len(b)-1:], cfg)
+						}
+						w.ClassN("non-json-bytes-around-document", 1)
+						w.NTHash(rt.Hash64(j, b, fmt.Sprint(int(cfg.rule))))
+					}
+				}
+			})
+		}
+		c.Require("non-json-bytes-around-document", 400)
+	}
+
+	// unknown keys that a parser classifying keys by anything less than their full text would take
+	// for "value" or "unit": same checksum under cheap hash functions (collide_keys.go), same length
+	// and first letter, same letters in another order, same prefix or suffix
+	{
+		okKeys, badKeys := verifyCollidingKeys()
+		c.SelfTest("listed-colliding-keys-collide", len(badKeys) == 0 && okKeys >= 40)
+		c.Extra("checksum_colliding_keys_verified", okKeys)
+		type lk struct{ key, target, class string }
+		var keys []lk
+		for _, e := range collidingKeys {
+			keys = append(keys, lk{e.key, e.target, "checksum-colliding-key:" + e.hash})
+		}
+		for _, k := range []string{"valid", "venue", "vague", "vxxxe", "eulav", "valeu", "vaule", "v", "va", "val", "valu", "values", "valuee", "xvalue", "value_", "_value", "value\x00", "valu\u00e9", "v\u00e4lue", "value1"} {
+			keys = append(keys, lk{k, "value", "near-miss-key"})
+		}
+		for _, k := range []string{"unix", "uint", "tinu", "nuit", "uxxt", "u", "un", "uni", "units", "unitt", "xunit", "unit_", "_unit", "unit\x00", "\u00fcnit", "un\u0131t", "unit1"} {
+			keys = append(keys, lk{k, "unit", "near-miss-key"})
+		}
+		for _, cfg := range []c12Cfg{{rule: size.RuleEnableJSONStringForm | size.RuleEnableJSONObjectForm, maxKeys: 16}, {rule: size.RuleEnableJSONObjectForm, maxKeys: 0}, {rule: size.RuleEnableJSONObjectForm | size.RuleDisallowUnknownKeys, maxKeys: 16}, {rule: size.RuleEnableJSONObjectForm, maxKeys: 3}} {
+			cfg := cfg
+			c12Apply(cfg)
+			c.Parallel("keys-resembling-value-and-unit", 0, func(w *rt.W) {
+				for ki := w.Shard; ki < len(keys); ki += w.NShards {
+					k := keys[ki]
+					for _, kv := range []string{k.key, strings.ToUpper(k.key), strings.ToUpper(k.key[:1]) + k.key[1:]} {
+						q, _ := json.Marshal(kv)
+						other := `7`
+						if k.target == "unit" {
+							other = `"MiB"`
+						}
+						for _, ms := range [][]string{
+							{string(q) + ":" + other, `"value":1`, `"unit":"KiB"`},
+							{string(q) + ":" + other, `"unit":"KiB"`},
+							{string(q) + ":" + other, `"value":1`},
+							{string(q) + ":" + other, `"Value":3`, `"UNIT":"kB"`, `"z":null`},
+							{string(q) + ":null", `"value":0`, `"unit":"B"`},
+							{string(q) + `:{"value":5,"unit":"GB"}`, `"value":2`, `"unit":"B"`},
+							{string(q) + ":" + other},
+						} {
+							permute(ms, w.Rng, 24, func(p []string) { c12Case(w, "{"+strings.Join(p, ",")+"}", cfg) })
+						}
+					}
+					w.ClassN(k.class, 1)
+					w.ClassN("keys-resembling-value-or-unit", 1)
+				}
+			})
+		}
+		c.Require("keys-resembling-value-or-unit", 300)
+	}
 
 	coldStart(c, "C12", 10)
 	c12Apply(c12Cfg{rule: size.DefaultRule, maxKeys: 16, limit: 0})
